@@ -31,7 +31,7 @@ func init() {
 			t0 := time.Now()
 			pairs := runC41(c, "sql/mysql_db", "sql/mysql_db/serial", "MySQLDb.Persist", "MySQLDb.LoadData", 45, 41)
 			t1 := time.Now()
-			runC41Tree(c, "sql/mysql_db", "PrivilegeSet", pairs, c41tFloors{})
+			runC41Tree(c, "sql/mysql_db", "PrivilegeSet", pairs, c41tFloors{p1a: 10, p1b: 11, p1c: 1, p2a: 10, p2b: 23, p2c: 4, p3: 6, p4: 14})
 			if os.Getenv("VCHK_DUMP") != "" {
 				fmt.Printf("TIMING C41 F-rules %v, tree rules %v\n", t1.Sub(t0), time.Since(t1))
 			}
